@@ -21,6 +21,19 @@ CHECKS = {
         note='Comments stripped (C14). Relative order of inline vs standalone refs is not compared (DBML cannot express it). Four recorded findings '
              '(falsy defaults, keyword-like string defaults, multi-line text in settings position, dotted/comma names) matched by narrow shape predicates.',
         design='DESIGN.md §3 C02'),
+    'C03': dict(
+        level='exploration', technique='exhaustive feature-product enumeration of API-built and parsed databases, SQL read back by an independent DDL reader and compared fact by fact with a reference computed from the abstract model',
+        text='The full product of column flags x default values x type kinds x notes, every pk layout x position x schema x table note, the index feature product and enum shapes '
+             'are each built (public classes and parser), rendered with .sql, read back by verif/ddl.py and compared with the facts the statement prescribes; any unrecognised statement is a violation.',
+        note='Trusts verif/ddl.py (lexical SQL reader) and verif/sqlref.py (the statement turned into facts). String defaults restricted to tokens the reader can delimit; boolean spelling case-insensitive.',
+        design='DESIGN.md §3 C03'),
+    'C04': dict(
+        level='exploration', technique='exhaustive enumeration of reference sets (size 1 full product, size 2 all ordered pairs, size 3 core) over a 3-table universe; multiset equality of FOREIGN KEY facts read back from SQL',
+        text='Every single reference over kind x inline x arity x 9 table pairs x name x 36 action pairs, every ordered pair over the reduced product and (thorough) every triple over a core set is built, rendered and '
+             'read back; the multiset of FOREIGN KEY facts (placement, key table, key columns in order, referenced table and columns, constraint name, actions) must equal the one computed from the references, '
+             'and each many-to-many reference must have its structurally correct join table with two foreign keys back.',
+        note='Trusts verif/ddl.py and verif/sqlref.py. Join-table column names are not prescribed by the statement and not compared.',
+        design='DESIGN.md §3 C04'),
     'C05': dict(
         level='model_checking', technique='identity/back-pointer invariant evaluated in every state of the C01 derivation BFS and element products (explicit enumeration, real parser)',
         text='The link invariant (endpoint identity, lookup equivalence by index/full name/alias, owner back-pointers of columns, indexes and all notes, '
